@@ -293,6 +293,16 @@ ROLE_SECRET = ("secret", "_sk", "sk_", "privkey", "private")
 ROLE_PUBLIC = ("public", "_pk", "pk_", "pubkey")
 
 
+def pw_role_of_name(name):
+    """'password' / 'salt' for names that say so (the two byte-string inputs of password hashing have the same type)"""
+    n = (name or "").lower()
+    if "salt" in n:
+        return "salt"
+    if "password" in n or "passwd" in n or n in ("pw", "pwd"):
+        return "password"
+    return None
+
+
 def role_of_name(name):
     n = name.lower()
     if n in ("sk", "esk") or any(t in n for t in ROLE_SECRET) or n.endswith("sk"):
@@ -302,7 +312,39 @@ def role_of_name(name):
     return None
 
 
-def role_consistency(rep, prog, tag=""):
+def named_origin(f, l, depth=10):
+    """the source-level name of the variable a (view of a) value comes from: follows moves, reborrows and pure views
+    from local l back to the first local that carries a user-written name"""
+    from ..engines import RESLICE
+    cur = l
+    for _ in range(depth):
+        nm = f.local_name(cur)
+        if nm and not nm.startswith("_") and cur > f.argc:
+            return nm
+        if 1 <= cur <= f.argc:
+            return param_name(f, cur)
+        d = def_sites(f, cur)
+        if len(d) != 1:
+            return None
+        if d[0][1] == "call":
+            c = d[0][2]
+            if c.args and c.args[0].get("k") in ("copy", "move") and (c.path in RESLICE or c.rpath in RESLICE or (f.prog is not None and c.rkey in f.prog.reslicers)):
+                cur = c.args[0]["l"]
+                continue
+            return None
+        rv = d[0][2]["rv"]
+        if rv["k"] in ("use", "cast") and rv["x"].get("k") in ("copy", "move"):
+            cur = rv["x"]["l"]
+        elif rv["k"] in ("ref", "rawptr"):
+            cur = rv["place"]["l"]
+        else:
+            return None
+    return None
+
+
+def role_consistency(rep, prog, tag="", role_of_name=None, kind="key"):
+    if role_of_name is None:
+        role_of_name = globals()["role_of_name"]
     """Key-role consistency across crate-internal calls: a parameter the caller names as a secret key is
     never passed in the position the callee names as a public key, and vice versa.  Both are 32-byte
     arrays (or the same generic ByteArray<32>), so the type checker cannot tell them apart; X25519 of the
@@ -312,8 +354,6 @@ def role_consistency(rep, prog, tag=""):
         if f.kind == "closure":
             continue
         roles = {p: role_of_name(param_name(f, p)) for p in range(1, f.argc + 1)}
-        if not any(roles.values()):
-            continue
         for c in f.calls():
             if f.blocks[c.bb]["cleanup"] or "r_key" not in c.f or not c.f.get("r_local"):
                 continue
@@ -328,12 +368,24 @@ def role_consistency(rep, prog, tag=""):
                     continue
                 root = view_info(f, ls[0])[0]
                 r1 = roles.get(root)
+                nm1 = param_name(f, root) if r1 else None
                 r2 = role_of_name(param_name(g, i + 1))
+                if not r1 and r2:
+                    # a named local (`let mut secret_key = ..`) or a field of a record (`self.secret_key`, `res.public_key`)
+                    import re as _re
+                    from ..expr import expr_of_operand as _eo, deep_repr as _dr
+                    flds = _re.findall(r"\.([a-z_][a-z0-9_]*)", _dr(_eo(f, a)))
+                    cand = [x for x in flds if role_of_name(x)]
+                    if cand:
+                        nm1 = cand[-1]
+                    else:
+                        nm1 = named_origin(f, ls[0])
+                    r1 = role_of_name(nm1) if nm1 else None
                 if r1 and r2:
                     n += 1
                     rep.ob("ROLE", "%s -> %s|arg %d%s" % (f.path, g.path.split("::")[-1], i, tag), r1 == r2,
-                           "caller's `%s` (%s key) is passed as the callee's `%s` (%s key)" % (
-                               param_name(f, root), r1, param_name(g, i + 1), r2), loc=c.loc(),
+                           "caller's `%s` (%s%s) is passed as the callee's `%s` (%s%s)" % (
+                               nm1, r1, " key" if kind == "key" else "", param_name(g, i + 1), r2, " key" if kind == "key" else ""), loc=c.loc(),
                            key="ROLE|%s|%s|%d%s" % (f.key, g.key, i, tag))
     return n
 
